@@ -279,11 +279,136 @@ def select(prop, tier):
     return [(n, c) for n, c, _ in out]
 
 
+def _error_result(arg, msg):
+    jobname, ci, seed, want_props = arg
+    cfg = JOBS[jobname].cfgs[ci]
+    kw = {k: v for k, v in cfg.items() if not k.startswith("_")}
+    return dict(job="%s[%s]" % (jobname, cfg_label(cfg)), jobname=jobname, cfg=kw, obls=[], error=msg, secs=0.0,
+                functions=[], notes=[], defined=0, crosscheck=None, trace="")
+
+
+def _worker_main(task_r, res_w):
+    import resource
+    while True:
+        try:
+            a = task_r.recv()
+        except EOFError:
+            return
+        if a is None:
+            return
+        res = run_one(a)
+        res["maxrss_mb"] = resource.getrusage(resource.RUSAGE_SELF).ru_maxrss // 1024
+        res_w.send(res)
+
+
+class _Worker:
+    def __init__(self, ctx):
+        self.task_r, self.task_w = ctx.Pipe(duplex=False)
+        self.res_r, res_w = ctx.Pipe(duplex=False)
+        self.proc = ctx.Process(target=_worker_main, args=(self.task_r, res_w), daemon=True)
+        self.proc.start()
+        self.task_r.close()
+        res_w.close()
+        self.arg = None
+        self.ntasks = 0
+
+    def rss_mb(self):
+        try:
+            return int(open("/proc/%d/statm" % self.proc.pid).read().split()[1]) * 4096 // (1 << 20)
+        except Exception:
+            return 0
+
+    def retire(self):
+        try:
+            self.task_w.send(None)
+        except Exception:
+            pass
+        self.proc.join(5)
+        if self.proc.is_alive():
+            self.proc.kill()
+        self.task_w.close()
+        self.res_r.close()
+
+
+def _mem_available_mb():
+    try:
+        for line in open("/proc/meminfo"):
+            if line.startswith("MemAvailable:"):
+                return int(line.split()[1]) // 1024
+    except Exception:
+        pass
+    return 1 << 30
+
+
 def run_jobs(tasks, seed, props, procs=None):
+    """every job runs in a forked worker; a worker that dies (or is killed here because the job outgrew its memory budget: a
+    blow-up of the term store, typically on changed code) costs its one job, reported as a checker problem, never a hang"""
+    from multiprocessing import connection as mpc
     procs = procs or int(os.environ.get("OASVERIF_PROCS", "16"))
     args = [(n, c, seed, props) for n, c in tasks]
     if procs <= 1 or len(args) <= 1:
         return [run_one(a) for a in args]
     ctx = mp.get_context("fork")
-    with ctx.Pool(min(procs, len(args)), maxtasksperchild=8) as pool:
-        return list(pool.imap_unordered(run_one, args, chunksize=1))
+    cap_mb = int(float(os.environ.get("OASVERIF_JOB_MEM_GB", "8")) * 1024)
+    pending = args[::-1]
+    workers = []
+    results = []
+    killed = {}
+    try:
+        while pending or any(w.arg is not None for w in workers):
+            for w in workers:
+                if w.arg is None and pending:
+                    w.arg = pending.pop()
+                    w.task_w.send(w.arg)
+            while pending and len(workers) < procs:
+                w = _Worker(ctx)
+                w.arg = pending.pop()
+                w.task_w.send(w.arg)
+                workers.append(w)
+            busy = [w for w in workers if w.arg is not None]
+            ready = mpc.wait([w.res_r for w in busy], timeout=1.0)
+            for w in busy:
+                if w.res_r not in ready:
+                    continue
+                try:
+                    res = w.res_r.recv()
+                except (EOFError, OSError):
+                    w.proc.join(5)
+                    why = killed.pop(w.proc.pid, None) or "worker process died (exit code %s; killed by the system, " \
+                                                          "most likely out of memory)" % w.proc.exitcode
+                    res = _error_result(w.arg, "WorkerDied: " + why)
+                    if os.environ.get("OASVERIF_PROGRESS"):
+                        sys.stderr.write("  done %-70s %s\n" % (res["job"], res["error"]))
+                    workers.remove(w)
+                    w.task_w.close()
+                    w.res_r.close()
+                    results.append(res)
+                    continue
+                results.append(res)
+                w.arg = None
+                w.ntasks += 1
+                if w.ntasks >= 8 or res.get("maxrss_mb", 0) > 2048:
+                    workers.remove(w)
+                    w.retire()
+            # memory budget per job, and a guard for the machine as a whole
+            busy = [w for w in workers if w.arg is not None and w.proc.pid not in killed]
+            if busy:
+                sizes = [(w.rss_mb(), w) for w in busy]
+                for rss, w in sizes:
+                    if rss > cap_mb:
+                        killed[w.proc.pid] = "job exceeded its memory budget (%d MB resident > %d MB)" % (rss, cap_mb)
+                        w.proc.kill()
+                if _mem_available_mb() < 6144:
+                    rss, w = max(sizes, key=lambda t: t[0])
+                    if w.proc.pid not in killed and rss > 1024:
+                        killed[w.proc.pid] = "machine low on memory; the largest job (%d MB resident) was stopped" % rss
+                        w.proc.kill()
+    finally:
+        for w in workers:
+            try:
+                if w.arg is not None:
+                    w.proc.kill()
+                w.retire()
+            except Exception:
+                pass
+    return results
